@@ -724,3 +724,101 @@ Proof.
   - intros i. split; [apply X10|apply Y10].
   - split; assumption.
 Qed.
+
+(** * Shape (ny, nx) request *)
+
+Definition yx_rx (B : bbox) (nx : Z) : Q := span_x B / inject_Z nx.
+Definition yx_ry (B : bbox) (ny : Z) : Q := - span_y B / inject_Z ny.
+
+Lemma from_bbox_shapeYX_inv B crs tight ny nx r anc tol g :
+  from_bbox B crs tight (Some (ShapeYX ny nx)) r anc tol = Ok g -> r = None ->
+  exists na offx offy,
+    norm_anchor anc = Ok na /\ nx <> 0%Z /\ ny <> 0%Z /\
+    g = mkG ny nx (aff_mul (aff_translation offx offy) (aff_scale (yx_rx B nx) (yx_ry B ny))) crs /\
+    match snap_of tight na with
+    | None => offx = bl B /\ offy = bt B
+    | Some (sx, sy) =>
+        exists n1 n2, snap_grid (bl B) (br B) (yx_rx B nx) (Some sx) tol = Ok (offx, n1) /\
+                      snap_grid (bb B) (bt B) (yx_ry B ny) (Some sy) tol = Ok (offy, n2)
+    end.
+Proof.
+  intros H ->. unfold from_bbox in H.
+  apply bind_ok in H. destruct H as (na & Ha & H). cbn [bind] in H.
+  apply bind_ok in H. destruct H as (u1 & Hnx & H).
+  apply bind_ok in H. destruct H as (u2 & Hny & H).
+  apply bind_ok in H. destruct H as ([offx offy] & Hoff & H).
+  injection H as <-. exists na, offx, offy.
+  split; [exact Ha|].
+  split. { destruct (Z.eqb nx 0) eqn:E; simpl in Hnx; [discriminate|]. apply Z.eqb_neq in E. exact E. }
+  split. { destruct (Z.eqb ny 0) eqn:E; simpl in Hny; [discriminate|]. apply Z.eqb_neq in E. exact E. }
+  split; [reflexivity|].
+  destruct (snap_of tight na) as [[sx sy]|].
+  - apply bind_ok in Hoff. destruct Hoff as ([ox n1] & H1 & Hoff).
+    apply bind_ok in Hoff. destruct Hoff as ([oy n2] & H2 & Hoff).
+    injection Hoff as <- <-. exists n1, n2. split; assumption.
+  - injection Hoff as <- <-. split; reflexivity.
+Qed.
+
+Lemma inject_Z_pos n : (0 < n)%Z -> 1 <= inject_Z n.
+Proof. intros H. rewrite <- inj1, <- Zle_Qle. lia. Qed.
+
+Lemma Qabs_lt x y : - y < x -> x < y -> Qabs x < y.
+Proof. intros H1 H2. apply Qabs_Qlt_condition. split; assumption. Qed.
+
+(** explicit (ny, nx): exact shape, pixel size = span / shape, axis aligned,
+    displaced by less than one pixel (not at all without snapping), snapped as requested *)
+Lemma cog_shape_yx s dst du B fit rq ny nx tight anc tol rr g :
+  compute_output_geobox s dst du B fit rq (Some (ShapeYX ny nx)) tight anc tol rr = Ok (ONew g) ->
+  valid_box B -> 0 <= tol -> (0 < nx)%Z -> (0 < ny)%Z ->
+  g_ny g = ny /\ g_nx g = nx /\ g_crs g = dst /\ axis_aligned g /\
+  aa (g_aff g) == span_x B / inject_Z nx /\ ae (g_aff g) == - (span_y B / inject_Z ny) /\
+  Qabs (g_x0 g - bl B) < px g /\ Qabs (g_y0 g - bt B) < py g /\
+  exists na, norm_anchor anc = Ok na /\
+    match snap_of tight na with
+    | None => g_x0 g == bl B /\ g_y0 g == bt B
+    | Some (sx, sy) => aligned sx sy g
+    end.
+Proof.
+  intros H [Vx Vy] Ht Hnx Hny. apply cog_new_inv in H. destruct H as (r & H1 & H2).
+  rewrite choose_resolution_shape in H1. injection H1 as <-.
+  destruct (from_bbox_shapeYX_inv _ _ _ _ _ _ _ _ _ H2 eq_refl) as (na & offx & offy & Ha & _ & _ & -> & Hs).
+  destruct (aff_mul_ts offx offy (yx_rx B nx) (yx_ry B ny)) as (A1 & A2 & A3 & A4 & A5 & A6).
+  pose proof (inject_Z_pos nx Hnx) as Px. pose proof (inject_Z_pos ny Hny) as Py.
+  unfold g_x0, g_y0, px, py, axis_aligned. cbn [g_aff g_nx g_ny g_crs].
+  set (m := aff_mul (aff_translation offx offy) (aff_scale (yx_rx B nx) (yx_ry B ny))) in *.
+  assert (Rx : yx_rx B nx == span_x B / inject_Z nx) by reflexivity.
+  assert (Ry : yx_ry B ny == - (span_y B / inject_Z ny)) by (unfold yx_ry; field; lra).
+  assert (Sx : 0 < span_x B) by (unfold span_x; lra).
+  assert (Sy : 0 < span_y B) by (unfold span_y; lra).
+  assert (Mx : inject_Z nx * (span_x B / inject_Z nx) == span_x B) by (field; lra).
+  assert (My : inject_Z ny * (span_y B / inject_Z ny) == span_y B) by (field; lra).
+  set (ax := span_x B / inject_Z nx) in *. set (ay := span_y B / inject_Z ny) in *.
+  assert (Pax : 0 < ax) by nra. assert (Pay : 0 < ay) by nra.
+  assert (Eax : Qabs (aa m) == ax) by (rewrite A1, Rx; apply Qabs_pos; lra).
+  assert (Eay : Qabs (ae m) == ay).
+  { rewrite A5, Ry. rewrite Qabs_opp. apply Qabs_pos; lra. }
+  split; [reflexivity|]. split; [reflexivity|]. split; [reflexivity|].
+  split; [split; assumption|]. split; [rewrite A1; exact Rx|]. split; [rewrite A5; exact Ry|].
+  destruct (snap_of tight na) as [[sx sy]|] eqn:Es.
+  - destruct Hs as (n1 & n2 & S1 & S2).
+    pose proof (snap_grid_props _ _ _ _ _ _ _ S1 Vx Ht) as P1.
+    pose proof (snap_grid_props _ _ _ _ _ _ _ S2 Vy Ht) as P2.
+    assert (Q1 := axis_props_ext _ _ _ (aa m) _ _ _ (ac m) _ A3 A1 P1).
+    assert (Q2 := axis_props_ext _ _ _ (ae m) _ _ _ (af m) _ A6 A5 P2).
+    clear P1 P2. unfold axis_props in Q1, Q2. cbv zeta in Q1, Q2.
+    destruct Q1 as (X0 & X1 & X2 & X3 & X4 & X5 & X6 & X7 & X8 & X9 & X10).
+    destruct Q2 as (Y0 & Y1 & Y2 & Y3 & Y4 & Y5 & Y6 & Y7 & Y8 & Y9 & Y10).
+    assert (Tx : Qltb 0 (aa m) = true) by (apply Qltb_true; rewrite A1, Rx; exact Pax).
+    assert (Ty : Qltb 0 (ae m) = false) by (apply Qltb_false; rewrite A5, Ry; lra).
+    rewrite Tx in X9. rewrite Ty in Y9.
+    set (lox := axis_lo (ac m) n1 (aa m)) in *. set (hix := axis_hi (ac m) n1 (aa m)) in *.
+    set (loy := axis_lo (af m) n2 (ae m)) in *. set (hiy := axis_hi (af m) n2 (ae m)) in *.
+    split. { apply Qabs_lt; lra. }
+    split.
+    { apply Qabs_lt; [lra|]. destruct Y7 as [Y7|Y7]; [lra|].
+      subst n2. rewrite inj1 in Y8. assert (ay <= inject_Z ny * ay) by nra. unfold span_y in *. lra. }
+    exists na. split; [exact Ha|]. rewrite Es. intros i. split; [apply X10|apply Y10].
+  - destruct Hs as [-> ->].
+    split. { apply Qabs_lt; lra. } split. { apply Qabs_lt; lra. }
+    exists na. split; [exact Ha|]. rewrite Es. split; assumption.
+Qed.
